@@ -12,6 +12,9 @@
      idle     the event loop has no ready handle (quiescent)
      closed   connector.close() was called
      open     connections (by creator) whose transport is still open
+     held[t]  creator of the connection caller t holds ("" if none)
+     stale    connections that sat released in the pool when the harness let the clock run past
+              keepalive_timeout (event "timepass") and have not been handed out since
    cfg: L (limit), Lh (limit_per_host).
 
    Clauses (C07):
@@ -20,7 +23,9 @@
                     (also catches leaked slots: the final probes of each execution
                      would have to wait for capacity that is not in use)
      CloseFails     after close(): no caller is left waiting, every connection is closed
-     Transition     a caller's status changes only along the connect() life cycle      *)
+     Transition     a caller's status changes only along the connect() life cycle
+   Refinement clause (reported as DRIFT, it is not part of C07):
+     StaleReuse     a caller is handed a connection whose keep-alive time had run out         *)
 EXTENDS Naturals, Sequences, FiniteSets, TLC, TraceBatch
 
 VARIABLES tid, l, prev, bad
@@ -64,6 +69,8 @@ Clause(p, e, c) ==
          THEN "CloseLeavesWaiter"
     ELSE IF o.closed /\ o.idle /\ ~p.closed /\ o.open # <<>> THEN "CloseLeavesConnectionOpen"
     ELSE IF \E t \in Names(o) : p.st[t] # o.st[t] /\ <<p.st[t], o.st[t]>> \notin Legal THEN "Transition"
+    ELSE IF \E t \in Names(o) : o.held[t] # "" /\ p.held[t] # o.held[t]
+                                 /\ \E i \in 1..Len(p.stale) : p.stale[i] = o.held[t] THEN "StaleReuse"
     ELSE ""
 
 TInit ==
